@@ -6,5 +6,7 @@ CONSTANTS
   Crashes = FALSE
   Depth = 4
   Forks = TRUE
+  Concs = TRUE
+  Early = FALSE
 INVARIANTS GenInv Dump
 CHECK_DEADLOCK FALSE
